@@ -104,8 +104,8 @@ class ObservedCompiler(Compiler):  # noqa: D101
             else:
                 continue
 
-            # Copy the edges
-            if not state.get('_stochastic'):
+            # Copy the edges, unless the observed value is given or the node is stochastic
+            if not state.get('_stochastic') and node not in compiled_net.graph['observed']:
                 obs_node = observed_name(node)
                 for parent in source_net.predecessors(node):
                     if parent in observable:
@@ -120,7 +120,7 @@ class ObservedCompiler(Compiler):  # noqa: D101
             # Use the observed version to query observed ancestors in the compiled_net
             obs_node = observed_name(node)
             for ancestor_node in nx.ancestors(compiled_net, obs_node):
-                if '_stochastic' in source_net.nodes.get(ancestor_node, {}):
+                if '_stochastic' in source_net.nodes.get(ancestor_node, {}).get('attr_dict', {}):
                     raise ValueError("Observed nodes must be deterministic. Observed "
                                      "data depends on a non-deterministic node {}."
                                      .format(ancestor_node))
